@@ -78,6 +78,16 @@ CHECKS = {
         design_ref='6/C11',
         note='Trusted: Prim.tla as the definition; native order taken as little endian; TZ switched with time.tzset().',
         technique='TLA+ reference primitives checked by TLC; trace validation of the real primitives (exhaustive for 8/16-bit spaces)'),
+    'C10': dict(
+        category='model_checking',
+        text='Exhaustive over every 1- and 2-byte code space: each of the 2^8 / 2^16 values of every numeric enumeration is '
+             'decoded alone and as the middle item of its list container(s); TLC checks the rules of CodePoint.tla (table '
+             'injective up to protocol-assigned shared numbers, known code -> its member, unknown code preserved verbatim or '
+             'rejected, nothing dropped or redirected in lists, re-encoding identical) on the complete outcome arrays. 3/4-byte '
+             'and string-coded spaces: members, neighbours, near-miss names, samples; all Enum tables checked for aliases.',
+        design_ref='6/C10',
+        note='Trusted: the outcome classification in harness/checks/c10.py; allow-list of protocol-assigned shared numbers.',
+        technique='TLA+ code point rules evaluated by TLC over exhaustive decode tables of the implementation'),
 }
 
 NOT_APPLICABLE = {}
